@@ -34,8 +34,19 @@ func (m *mModule) sexp() string {
 	for _, e := range m.entries {
 		fmt.Fprintf(&b, " (%s %s (wg %d %d %d) (uses %s) (calls %s))", e.name, e.stage, e.wg[0], e.wg[1], e.wg[2], ints(e.uses), ints(e.calls))
 	}
+	b.WriteString(") (io")
+	for _, f := range m.io {
+		fmt.Fprintf(&b, " (%d %s %s)", f.loc, orDash(f.interp), orDash(f.sampling))
+	}
 	b.WriteString("))")
 	return b.String()
+}
+
+func orDash(s string) string {
+	if s == "" {
+		return "-"
+	}
+	return s
 }
 
 func ints(xs []int) string {
